@@ -167,6 +167,63 @@ def h_svd_superdiag(ctx, d, n, with_cap):
         ctx.claim('exact_when_e_small', ctx.any_([ctx.ge(e2, sa[-1] * sa[-1]), ctx.eq(err2, 0)]))
 
 
+def _unfold_spectrum2(ctx, M):
+    """Squared singular values of a matrix whose rows (or columns) have pairwise
+    disjoint supports: the squared row (column) norms."""
+    M = np.asarray(M)
+    nz = lambda x: not (hasattr(x, 'const_value') and x.const_value() == 0) if is_sym(ctx) else x != 0
+    rows_disjoint = all(sum(1 for i in range(M.shape[0]) if nz(M[i, j])) <= 1 for j in range(M.shape[1]))
+    if rows_disjoint:
+        return [sumsq(M[i, :]) for i in range(M.shape[0])]
+    cols_disjoint = all(sum(1 for j in range(M.shape[1]) if nz(M[i, j])) <= 1 for i in range(M.shape[0]))
+    assert cols_disjoint
+    return [sumsq(M[:, j]) for j in range(M.shape[1])]
+
+
+def h_svd_perm4(ctx, with_cap, ordered=True):
+    """2x2x2x2 array Y[i1,i2,i3,i4] = a[i1,i2] if (i3,i4) = (i2,i1) else 0: the
+    middle unfolding has rank 4 > n_1 = 2 (ranks 2,4,2), all unfoldings have
+    rows or columns with disjoint supports (closed-form SVDs)."""
+    a = mat(ctx, 'a', 2, 2)
+    for x in a.reshape(-1):
+        ctx.assume(ctx.gt(x, 0))
+    if ordered:
+        # one ordering of the four weights (quick tier); magnitudes stay symbolic
+        fl = [a[0, 0], a[1, 1], a[0, 1], a[1, 0]]
+        for x, y in zip(fl, fl[1:]):
+            ctx.assume(ctx.gt(x, y))
+    Y = zeros(ctx, (2, 2, 2, 2))
+    for i1 in range(2):
+        for i2 in range(2):
+            Y[i1, i2, i2, i1] = a[i1, i2]
+    e = ctx.real('e')
+    ctx.assume(ctx.gt(e, 0))
+    r = ctx.integer('r') if with_cap else None
+    if with_cap:
+        ctx.assume(ctx.ge(r, 1))
+    Z = teneva.svd(Y, e, r if with_cap else 1.E+12)
+    ctx.claim('well_formed', well_formed(Z, [2] * 4))
+    ctx.claim('finite', finite(ctx, Z))
+    ranks = [G.shape[2] for G in Z[:-1]]
+    err2 = sumsq(ref_full(Z) - Y)
+    e2 = e * e
+    cap_binds = ctx.any_([ctx.eq(r, q) for q in ranks]) if with_cap else False
+    ctx.claim('error_bound_or_cap', ctx.any_([ctx.le(err2, e2 * 3), cap_binds]))
+    amin2 = ctx.min_([x * x for x in a.reshape(-1)])
+    if not with_cap:
+        ctx.claim('exact_when_e_small', ctx.any_([ctx.ge(e2, amin2), ctx.all_([ctx.eq(err2, 0), ranks == [2, 4, 2]])]))
+    for b, q in enumerate(ranks):
+        M = Y.reshape(2 ** (b + 1), -1)
+        sq = _unfold_spectrum2(ctx, M)
+        srt = sorted(range(len(sq)), key=lambda i: _Key(ctx, sq[i]), reverse=True)
+        ss = [sq[i] for i in srt]
+        tails = [sum(ss[j:], ctx.const(0)) for j in range(len(ss) + 1)]
+        if with_cap:
+            ctx.claim('rank_le_cap', ctx.any_([q == 1, ctx.le(q, r)]))
+        ok = ctx.any_([q == 1] + [ctx.all_([ctx.le(tails[j], e2), q <= max(1, j)]) for j in range(len(tails))])
+        ctx.claim('rank_quasi_optimal', ok)
+
+
 class _Key:
     """Sort key comparing symbolic values through forking comparisons."""
     def __init__(self, ctx, v):
@@ -231,6 +288,10 @@ def instances(tier):
             if tier == 'quick' and n == 3 and cap:
                 continue
             out.append({'func': 'h_svd_superdiag', 'params': {'d': d, 'n': n, 'with_cap': cap}})
+    for cap in ((False,) if tier == 'quick' else (False, True)):
+        out.append({'func': 'h_svd_perm4', 'params': {'with_cap': cap, 'ordered': True}, 'opts': {'symbolic_signs': False}})
+    if tier != 'quick':
+        out.append({'func': 'h_svd_perm4', 'params': {'with_cap': False, 'ordered': False}, 'opts': {'symbolic_signs': False}})
     for q in ([1, 2] if tier == 'quick' else [1, 2, 3]):
         out.append({'func': 'h_svd_matrix_roundtrip', 'params': {'q': q}})
     return out
